@@ -10,7 +10,7 @@ import numpy as np
 from common import proof_stage
 import algrun
 import exact
-from c12 import gen_specs, run_histories
+from c12 import gen_specs, run_histories, CRASHES
 
 MODULES = ["CobyqaVerif.Props.C13"]
 LEVEL = "proof"
@@ -49,6 +49,8 @@ def run(chk, rng, replay=None):
         specs = [s for s in specs if s[1] <= 4]
     hs = run_histories(specs)
     specfail, mism = [], []
+    for sp, what in CRASHES[:3]:
+        specfail.append((sp, "a valid operation on the models raised: " + what))
     n_cmp = n_probe = 0
     worst = worst_views = 0.0
     conds = []
